@@ -15,6 +15,7 @@ CONSTANTS
  DevDangEnd = FALSE
  DevNoAtomResname = FALSE
  DevOrderedPairs = TRUE
+ DevGateOnce = FALSE
  DevDegree = FALSE
 INVARIANT MissingIsExpected
 CHECK_DEADLOCK FALSE
